@@ -155,7 +155,73 @@ var c03Yield atomic.Uint64
 // c03Concurrent: several goroutines grow one mutex-enabled capacity stack at once (the library promises atomic
 // operations once SetMutex has been called, so "no sequence of calls" includes every interleaving of whole calls).
 // Scheduling points are widened through the lock-point hook and inside a permissive push policy.
+// c03TwoPrivate: two goroutines, each working on a stack of ITS OWN (front / middle Inserts and Removes around the limit).
+// Nothing is shared, so whatever one does can mean nothing to the other's capacity or content.
+func c03TwoPrivate(c *core.Ctx) {
+	r := c.Rng
+	type side struct {
+		s       stackage.Stack
+		k, n    int
+		bad     string
+		offered map[any]bool
+	}
+	mk := func(k, fill int, tag string) *side {
+		sd := &side{s: NewStack(Kinds[r.Intn(5)], k), k: k, offered: map[any]bool{}}
+		for i := 0; i < fill; i++ {
+			v := fmt.Sprintf("%s%d", tag, i)
+			sd.s.Push(v)
+			sd.offered[v] = true
+		}
+		return sd
+	}
+	a, b := mk(0, r.Range(20, 80), "a"), mk(r.Range(2, 4), 0, "b")
+	for i := 0; i < b.k-1; i++ {
+		v := fmt.Sprintf("b%d", i)
+		b.s.Push(v)
+		b.offered[v] = true
+	}
+	rounds := r.Range(200, 800)
+	var wg sync.WaitGroup
+	work := func(sd *side, tag string) {
+		defer wg.Done()
+		for i := 0; i < rounds && sd.bad == ""; i++ {
+			v := fmt.Sprintf("%s-ins%d", tag, i)
+			sd.offered[v] = true
+			if p, msg, _ := Guard(func() {
+				sd.s.Insert(v, i%2) // head or second position
+				if n := sd.s.Len(); sd.k > 0 && (n > sd.k || sd.s.Avail() != sd.k-n || sd.s.IsFull() != (n == sd.k)) {
+					sd.bad = fmt.Sprintf("after Insert: Len=%d Cap=%d Avail=%d IsFull=%v on capacity %d", n, sd.s.Cap(), sd.s.Avail(), sd.s.IsFull(), sd.k)
+				}
+				sd.s.Remove(0)
+			}); p {
+				sd.bad = "panic: " + msg
+			}
+		}
+	}
+	wg.Add(2)
+	go work(a, "A")
+	go work(b, "B")
+	wg.Wait()
+	c.Count("concurrent.two-private-stacks")
+	for name, sd := range map[string]*side{"uncapped": a, "capped": b} {
+		if sd.bad != "" {
+			c.Violatef("two-private-stacks:capacity", map[string]any{"side": name}, "a goroutine working on its own %s stack saw %s (another goroutine was working on a different stack)", name, sd.bad)
+			return
+		}
+		for i := 0; i < sd.s.Len(); i++ {
+			if v, _ := sd.s.Index(i); !sd.offered[v] {
+				c.Violatef("two-private-stacks:content", map[string]any{"side": name}, "the %s stack holds %s, which was never offered to it", name, Show(v))
+				return
+			}
+		}
+	}
+}
+
 func c03Concurrent(c *core.Ctx) {
+	if c.Idx%5 == 3 {
+		c03TwoPrivate(c)
+		return
+	}
 	r := c.Rng
 	next := uniqueVals()
 	k := r.Range(1, 4)
@@ -587,7 +653,7 @@ func init() {
 		Floors: func(tier string) map[string]int64 {
 			return map[string]int64{"reached-full": 1000, "partly-fitting-batch": 500, "nontrivial-histories": 200,
 				"op.TransferInto": 100, "op.MarshalInto": 100, "op.Insert": 100, "nocap.explicit-arg": 10, "with-permissive-push-policy": 1000,
-				"concurrent.histories": 5000, "concurrent.with-push-policy": 2000, "concurrent.ended-full": 2000}
+				"concurrent.histories": 4000, "concurrent.with-push-policy": 1500, "concurrent.ended-full": 1500, "concurrent.two-private-stacks": 800}
 		},
 	})
 }
